@@ -10,8 +10,17 @@ def canonize_hand(hand: List[str]) -> Tuple[List[str], Dict[str, str]]:
     :return: (List[str])
     """
     hand_suits = suit_partition(hand)
-    # order by (#-cards, suit)
-    ordered_suits = sorted(hand_suits, key=lambda k: (-len(hand_suits[k]), k))
+    # order by (#-cards, ranks held, suit): suits holding equally many cards
+    # are told apart by their ranks, so the result does not depend on how
+    # the suits happen to be named
+    ordered_suits = sorted(
+        hand_suits,
+        key=lambda k: (
+            -len(hand_suits[k]),
+            sorted(ace_high_rank_to_value[r] for r in hand_suits[k]),
+            k,
+        ),
+    )
     suit_map = dict(zip(ordered_suits, suits))
     hand = [
         f"{rank}{suit_map[suit]}"
